@@ -293,6 +293,16 @@ def write_replay(prop_id, n, payload):
 
 
 # ------------------------------------------------------------------------------------------ main
+def safe_search(prop, rng, tier):
+    """the implementation-only search for a failing input; a search that itself dies on the changed code finds nothing
+    (the violation is still reported, as no-failing-input-found, instead of the check crashing without a VIOLATION line)"""
+    try:
+        return prop.search(rng, tier)
+    except Exception as e:  # noqa
+        log(f"[search] raised {type(e).__name__}: {str(e)[:200]}")
+        return None
+
+
 def main():
     ap = argparse.ArgumentParser()
     ap.add_argument("prop")
@@ -471,7 +481,7 @@ def main():
             vio_lines.append(f"VIOLATION property={prop_id} replay={p}")
         if not spec_v:
             c, r, diffs = violations[0]
-            found = prop.search(rng, tier) if hasattr(prop, "search") else None
+            found = safe_search(prop, rng, tier) if hasattr(prop, "search") else None
             n_rep += 1
             if found:
                 p = write_replay(prop_id, n_rep, {"property": prop_id, "kind": "failing-input-from-search", **found})
@@ -488,7 +498,7 @@ def main():
     failed_obl = [o for o in obligations if not o["ok"] and not o["name"].startswith(f"corr:{prop_id}:model-vs")]
     if failed_obl and not vio_lines:
         # a theorem / gate / infrastructure obligation no longer checks: search the implementation directly
-        found = prop.search(rng, tier) if hasattr(prop, "search") and driver_ok else None
+        found = safe_search(prop, rng, tier) if hasattr(prop, "search") and driver_ok else None
         n_rep += 1
         if found:
             p = write_replay(prop_id, n_rep, {"property": prop_id, "kind": "failing-input-from-search", **found})
